@@ -319,9 +319,41 @@ def run(ctx, idx):
         byfunc.setdefault(p.func.name, []).append(p)
     for fname, prods in sorted(byfunc.items()):
         f = prods[0].func
-        mx = max([i for i, _ in p_indices(f) if i is not None] + [0])
-        short = [p for p in prods if len(p.rhs) < mx]
-        ctx.ob("C10.a", "%s::Parser.%s::index-in-range" % (rel, fname), rel, f.lineno, not short, "p[i] within every alternative" if not short else "action reads p[%d] but alternative `%s` has only %d symbols" % (mx, short[0], len(short[0].rhs)))
+        parg_ = f.args.args[-1].arg
+        par_ = {}
+        for x_ in ast.walk(f):
+            for ch_ in ast.iter_child_nodes(x_):
+                par_[id(ch_)] = x_
+
+        def min_len(node_):
+            """the least len(p) under which `node_` is evaluated, read off enclosing `len(p) <op> k` tests (If / conditional expression)"""
+            g_ = 0
+            q_ = node_
+            while id(q_) in par_:
+                up_ = par_[id(q_)]
+                if isinstance(up_, (ast.If, ast.IfExp)):
+                    in_body = (q_ is up_.body) if isinstance(up_, ast.IfExp) else any(q_ is b_ for b_ in up_.body)
+                    in_else = (q_ is up_.orelse) if isinstance(up_, ast.IfExp) else any(q_ is b_ for b_ in up_.orelse)
+                    conj_ = up_.test.values if isinstance(up_.test, ast.BoolOp) and isinstance(up_.test.op, ast.And) else [up_.test]
+                    for t_ in conj_:
+                        if isinstance(t_, ast.Compare) and len(t_.ops) == 1 and K.src(t_.left).replace(" ", "") == "len(%s)" % parg_ and isinstance(t_.comparators[0], ast.Constant) and isinstance(t_.comparators[0].value, int):
+                            k_, op_ = t_.comparators[0].value, t_.ops[0]
+                            if in_body and (len(conj_) >= 1):
+                                g_ = max(g_, k_ + 1 if isinstance(op_, ast.Gt) else k_ if isinstance(op_, (ast.GtE, ast.Eq)) else 0)
+                            if in_else and len(conj_) == 1:
+                                g_ = max(g_, k_ + 1 if isinstance(op_, ast.LtE) else k_ if isinstance(op_, ast.Lt) else 0)
+                q_ = up_
+            return g_
+
+        short = None
+        for i_, node_ in p_indices(f):
+            if i_ is None:
+                continue
+            g_ = min_len(node_)
+            for p in prods:
+                if len(p.rhs) + 1 >= g_ and i_ > len(p.rhs):
+                    short = short or (i_, p)
+        ctx.ob("C10.a", "%s::Parser.%s::index-in-range" % (rel, fname), rel, f.lineno, short is None, "p[i] within every alternative that reaches it" if short is None else "action reads p[%d] but alternative `%s` has only %d symbols" % (short[0], short[1], len(short[1].rhs)))
     # ------------------------------------------------------------------ b
     plain = L.rule("PLAIN_STRING")
     if plain is None:
